@@ -73,6 +73,7 @@ type Obligation struct {
 	Model   string
 	Query   string
 	known   string
+	candidate string
 }
 
 type defEntry struct {
